@@ -23,11 +23,16 @@ DEFAULT_OPAQUE = {
     "is_code_generation_option_enabled", "get_discriminator", "compile", "reset",
     "get_field_default_literal", "get_type_name_identifier", "iter_serialization_strategies",
     "__iter_serialization_strategies", "namespace", "annotations",
+    # template-producing summaries analysed on their own by the rules that need them
+    "get_pack_method_flags", "get_unpack_method_flags", "get_pack_method_default_flag_values",
+    "get_unpack_method_default_flag_values", "get_overridden_serialization_method",
+    "get_overridden_deserialization_method", "_get_encoder_kwargs",
 }
 
 
 class Evaluator(PE):
     keep_atom: Optional[Callable[[str], bool]] = None
+    profile: Optional[Dict[Any, int]] = None
     merge_enabled = True
     inline_modules = frozenset({
         "mashumaro.core.meta.code.builder", "mashumaro.core.meta.code.lines",
@@ -509,12 +514,10 @@ class Evaluator(PE):
             or (not force and len(self.call_stack) > self.inline_depth)
             or any(f.key == key for f in self.call_stack)
         ):
-            p.events.append(("call", key, args, kwargs))
             return [(self.opaque_call(opaque_name, args, kwargs, e, list(args) + list(kwargs.values())), p)]
         if any(d.endswith("contextmanager") for d in fi.decorators()):
             return self._contextmanager_call(fv, args, kwargs, p, e)
         if any(isinstance(n, (ast.While, ast.Yield, ast.YieldFrom)) for n in walk_no_nested(fi.node)):
-            p.events.append(("call", key, args, kwargs))
             return [(self.opaque_call(opaque_name, args, kwargs, e, list(args) + list(kwargs.values())), p)]
         decs = fi.decorators()
         a = fi.node.args
@@ -576,6 +579,8 @@ class Evaluator(PE):
                 for b, d in saved_ind.items():
                     q.ind[b] = d
                 res.append((v, q))
+            if len(res) > 1 and self.merge_enabled:
+                res = self.merge_results(res)
             return res
         finally:
             self.call_stack.pop()
@@ -704,18 +709,54 @@ class Evaluator(PE):
         return names
 
     def merge(self, paths: List[Path], live_names: frozenset) -> List[Path]:
-        # conservative: facts are part of the key unless *no* live name occurs in them and
-        # the enclosing call frames are absent (inside inlined callees every fact is kept)
-        seen = {}
+        """Exact merging: paths whose whole state coincides are kept once; the other
+        valuations are remembered in ``alts`` and split off again (PE.focus) as soon as a
+        later condition consults a fact on which they differ."""
+        groups: Dict[Any, Path] = {}
         out = []
         for p in paths:
-            k = p.state_key(None)
-            if k not in seen:
-                seen[k] = p
+            k = p.state_key(with_facts=False)
+            g = groups.get(k)
+            if g is None:
+                groups[k] = p
                 out.append(p)
+            else:
+                ws = g.worlds()[1:] + p.worlds()
+                seen = {tuple(sorted((a, repr(b)) for a, b in g.facts.items()))}
+                uniq = []
+                for w in ws:
+                    wk = tuple(sorted((a, repr(b)) for a, b in w.items()))
+                    if wk not in seen:
+                        seen.add(wk)
+                        uniq.append(w if w is not p.facts else dict(w))
+                g.alts = tuple(uniq)
+                g.since = {}
+        return out
+
+    def merge_results(self, res: List[Tuple[V, Path]]) -> List[Tuple[V, Path]]:
+        by_val: Dict[Any, List[Path]] = {}
+        vals: Dict[Any, V] = {}
+        order = []
+        for v, q in res:
+            k = v.key()
+            if k not in by_val:
+                by_val[k] = []
+                vals[k] = v
+                order.append(k)
+            by_val[k].append(q)
+        out = []
+        for k in order:
+            for q in self.merge(by_val[k], frozenset()):
+                out.append((vals[k], q))
         return out
 
     def stmt(self, st: ast.stmt, p: Path, live: frozenset = frozenset()) -> List[Path]:
+        self.steps += 1
+        if self.profile is not None:
+            k = (self.cur.qualname, st.lineno)
+            self.profile[k] = self.profile.get(k, 0) + 1
+        if self.steps > self.max_steps:
+            raise Undecided(f"step budget exhausted ({self.max_steps}) while analysing {self.call_stack[0].key}")
         m = getattr(self, "st_" + type(st).__name__, None)
         if m is None:
             raise Undecided(f"unsupported statement {type(st).__name__} in {self.cur.key}:{st.lineno}")
@@ -813,9 +854,17 @@ class Evaluator(PE):
         return out
 
     def st_If(self, st, p, live):
-        out = []
-        for b, q in self.cond(st.test, p):
-            out.extend(self.block(st.body if b else st.orelse, [q], live))
+        res = self.cond(st.test, p)
+        t = [q for b, q in res if b]
+        f = [q for b, q in res if not b]
+        if self.merge_enabled:
+            if len(t) > 1:
+                t = self.merge(t, live)
+            if len(f) > 1:
+                f = self.merge(f, live)
+        out = self.block(st.body, t, live) if t else []
+        if f:
+            out = out + (self.block(st.orelse, f, live) if st.orelse else f)
         return out
 
     def st_While(self, st, p, live):
